@@ -41,8 +41,8 @@ type zzTRoute struct {
 
 func (r *zzTRoute) RouteRule() api.RouteRule { return r.rule }
 
-// zzMillis: how a timeout source is written: absent, a number, or garbage.
-var zzMillis = []string{"", "5", "10", "x"}
+// zzMillis: how a timeout source is written: absent, a number (zero included), or garbage.
+var zzMillis = []string{"", "5", "10", "x", "0"}
 
 func zzParse(s string) (time.Duration, bool) {
 	switch s {
@@ -50,6 +50,10 @@ func zzParse(s string) (time.Duration, bool) {
 		return 5 * time.Millisecond, true
 	case "10":
 		return 10 * time.Millisecond, true
+	case "0":
+		return 0, true
+	case "-1":
+		return -1 * time.Millisecond, true
 	}
 	return 0, false
 }
@@ -61,8 +65,9 @@ func zzParse(s string) (time.Duration, bool) {
 func VerifC17_Timeout() {
 	routeGlobal := []time.Duration{0, 7 * time.Millisecond, 20 * time.Millisecond}[verif.Choose("route_global", 3)]
 	routeTry := []time.Duration{0, 7 * time.Millisecond, 20 * time.Millisecond}[verif.Choose("route_try", 3)]
-	hdrTry, hdrGlobal := zzMillis[verif.Choose("hdr_try", 4)], zzMillis[verif.Choose("hdr_global", 4)]
-	varTry, varGlobal := zzMillis[verif.Choose("var_try", 4)], zzMillis[verif.Choose("var_global", 4)]
+	hdrVals := append(append([]string{}, zzMillis...), "-1") // a client can send anything
+	hdrTry, hdrGlobal := hdrVals[verif.Choose("hdr_try", 6)], hdrVals[verif.Choose("hdr_global", 6)]
+	varTry, varGlobal := zzMillis[verif.Choose("var_try", 5)], zzMillis[verif.Choose("var_global", 5)]
 	hasRoute := verif.Choose("has_route", 2) == 1
 	ctx := variable.NewVariableContext(context.Background())
 	headers := protocol.CommonHeader{}
@@ -101,12 +106,13 @@ func VerifC17_Timeout() {
 	if v, ok := zzParse(varTry); ok {
 		t = v
 	}
-	if g == 0 {
+	if g <= 0 { // zero or negative: not set
 		g = types.GlobalTimeout
 	}
-	if t >= g {
+	if t < 0 || t >= g {
 		t = 0
 	}
+	verif.Assert(got.GlobalTimeout > 0 && got.TryTimeout >= 0, "a request would run without a response timeout")
 	verif.Assert(got.GlobalTimeout == g, "effective global timeout differs from the documented precedence")
 	verif.Assert(got.TryTimeout == t, "effective per-try timeout differs from the documented precedence")
 	verif.Cover("end")
